@@ -56,6 +56,31 @@ func grpcAddr(port int) string { return fmt.Sprintf("127.0.0.1:%d", port+3) }
 // de-duplication then merges the (equal) subtrees below them.
 const xshards = 7
 
+// The subtrees below the two dequeues (root shards 0 and 1) hold most of the states: they are split once more by the
+// second operation of the history (xsub processes each; the two transports of one operation stay together again).
+const xsub = 4
+
+type xjob struct {
+	Backend         string
+	Root, Sub, Subs int
+}
+
+func xjobs(backends []string) []xjob {
+	var out []xjob
+	for _, b := range backends {
+		for root := 0; root < xshards; root++ {
+			if root < 2 {
+				for sub := 0; sub < xsub; sub++ {
+					out = append(out, xjob{b, root, sub, xsub})
+				}
+				continue
+			}
+			out = append(out, xjob{b, root, 0, 1})
+		}
+	}
+	return out
+}
+
 const invalidClass = "invalid"
 
 type xcfg struct {
@@ -70,12 +95,12 @@ func xconfig(r *runner.Run, backend string) xcfg {
 	fullSp := []string{"lsp", "nl", "wrap", "upper", "tsp", "tab", "crlf", "both", "nbsp", "vt", "zwsp"}
 	if r.Thorough() {
 		if backend == "sqlite" {
-			return xcfg{Depth: 5, SpellDepth: 4, Spellings: fullSp, Wide: true}
+			return xcfg{Depth: 4, SpellDepth: 3, Spellings: fullSp, Wide: true}
 		}
-		return xcfg{Depth: 6, SpellDepth: 5, Spellings: fullSp, Wide: true}
+		return xcfg{Depth: 5, SpellDepth: 4, Spellings: fullSp, Wide: true}
 	}
 	if backend == "sqlite" {
-		return xcfg{Depth: 3, SpellDepth: 3, Spellings: quickSp}
+		return xcfg{Depth: 3, SpellDepth: 2, Spellings: quickSp}
 	}
 	return xcfg{Depth: 4, SpellDepth: 3, Spellings: quickSp}
 }
@@ -612,9 +637,6 @@ func (w *world) probes(s st, o op, rd reading, raws []string, ps *probeStats) (w
 	if o.Via == "grpc" && w.cli != nil { // the transport under test in this step
 		vias = append(vias, "grpc")
 	}
-	if os.Getenv("C04X_NOPROBE") != "" {
-		return "", ""
-	}
 	live := func(h, cls string) bool { exp, ok := s.Remembered[h+"|"+cls]; return ok && s.M.Now < exp }
 	vname := func(v string) string {
 		if v == "" {
@@ -693,7 +715,8 @@ func newestHandles(s st) []string {
 	return hs
 }
 
-func enabledX(s st, hist []op, c xcfg) []op {
+func enabledX(s st, hist []op, c xcfg, sub, subs int) []op {
+	mine := func(i int) bool { return subs <= 1 || len(hist) != 1 || i%subs == sub }
 	hs := newestHandles(s)
 	all := append(append([]string{}, hs...), "lease_unknown")
 	// transport-bearing operations (the alphabet of the HTTP search), first all over HTTP, then all over gRPC
@@ -710,13 +733,19 @@ func enabledX(s st, hist []op, c xcfg) []op {
 	if len(hs) >= 2 {
 		base = append(base, op{Kind: "ackb", Leases: []string{hs[0], hs[1]}}, op{Kind: "nackb", Leases: []string{hs[1], hs[0]}})
 	}
-	ops := append([]op{}, base...)
-	for _, o := range base {
-		o.Via = "grpc"
-		ops = append(ops, o)
+	var ops []op
+	for i, o := range base {
+		if mine(i) {
+			ops = append(ops, o)
+		}
 	}
-	ops = append(ops, op{Kind: "cancel", IDs: []string{"a"}}, op{Kind: "requeue", IDs: []string{"a"}})
-	ops = append(ops, op{Kind: "tick", Dur: time.Second}, op{Kind: "tick", Dur: ttl}, op{Kind: "tick", Dur: ttl + time.Second}, op{Kind: "tick", Dur: 1})
+	for i, o := range base {
+		if o.Via = "grpc"; mine(i) {
+			ops = append(ops, o)
+		}
+	}
+	rest := []op{{Kind: "cancel", IDs: []string{"a"}}, {Kind: "requeue", IDs: []string{"a"}},
+		{Kind: "tick", Dur: time.Second}, {Kind: "tick", Dur: ttl}, {Kind: "tick", Dur: ttl + time.Second}, {Kind: "tick", Dur: 1}}
 	earliest := int64(0)
 	for _, exp := range s.Remembered {
 		if exp > s.M.Now && (earliest == 0 || exp < earliest) {
@@ -724,11 +753,16 @@ func enabledX(s st, hist []op, c xcfg) []op {
 		}
 	}
 	if earliest > s.M.Now+1 {
-		ops = append(ops, op{Kind: "tick", Dur: time.Duration(earliest - 1 - s.M.Now)})
+		rest = append(rest, op{Kind: "tick", Dur: time.Duration(earliest - 1 - s.M.Now)})
 	}
 	// re-spelled lease ids: only as one of the last two operations of a history of the spelling depth
 	if d := len(hist); d >= c.SpellDepth-2 && d < c.SpellDepth {
-		ops = append(ops, spelledOps(all, c)...)
+		rest = append(rest, spelledOps(all, c)...)
+	}
+	for i, o := range rest {
+		if mine(i) {
+			ops = append(ops, o)
+		}
 	}
 	return ops
 }
@@ -869,7 +903,8 @@ func xRun(t *testing.T, backend, dir string, hist []op, s st, o op, judgeAll boo
 func xportJob(r *runner.Run, t *testing.T, backends []string, k int) {
 	defer debug.SetGCPercent(debug.SetGCPercent(400))
 	withGRPC = true
-	backend, shard := backends[k/xshards], k%xshards
+	job := xjobs(backends)[k]
+	backend, shard := job.Backend, job.Root
 	curBackend = backend
 	cfg := xconfig(r, backend)
 	dir := filepath.Join(runner.Scratch(), "c04x")
@@ -904,7 +939,7 @@ func xportJob(r *runner.Run, t *testing.T, backends []string, k int) {
 			if s.M == nil {
 				s.M = initModel(backend)
 			}
-			return enabledX(s, hist, cfg)
+			return enabledX(s, hist, cfg, job.Sub, job.Subs)
 		},
 		Step: func(wi int, hist []op, s st, o op) bfs.StepResult[st] {
 			out := xRun(t, backend, dir, hist, s, o, false, &ps, count)
@@ -926,6 +961,9 @@ func xportJob(r *runner.Run, t *testing.T, backends []string, k int) {
 	}
 	res := eng.Run()
 	label := fmt.Sprintf("xport/%s/shard%d-of-%d", backend, shard, xshards)
+	if job.Subs > 1 {
+		label += fmt.Sprintf("/second-op-%d-of-%d", job.Sub, job.Subs)
+	}
 	r.Add("states", res.States)
 	r.Add("transitions", res.Transitions)
 	r.Add("traces_validated_against_impl", res.Transitions)
